@@ -3,6 +3,7 @@ import GdslModel.Model.Spec
 import GdslModel.Model.Search
 import GdslModel.Model.Container
 import GdslModel.Model.Own
+import GdslModel.Model.Sync
 /-!
 Line-protocol driver: reads an annotated program on stdin, prints the model's observation
 stream (one line per request). The harness runs the same program on the real code.
@@ -371,6 +372,90 @@ def ownReq (st : St) (args : List String) : St × String :=
     | none => (st, "refused")
     | some o => ({ st with own := o }, s!"rel={showKeys (sortNat o.released)}")
 
+/-! ### concurrent scenarios (C17): follow the schedule the real scheduler took -/
+
+def iterAll (u : Nat) (sel : Adj Nat Nat → List (Nat × Nat)) : Nat → Nat → List (Nat × Nat) → Prog Nat Nat (List (Nat × Nat))
+  | 0, _, acc => .done acc
+  | fuel + 1, pos, acc => (Sync.iterNext u sel pos).bind fun x =>
+      match x with
+      | none => .done acc
+      | some p => iterAll u sel fuel (pos + 1) (acc ++ [p])
+
+def resStr : Res Nat → String
+  | .unit => "ok" | .val e => s!"ok_{e}" | .notFound => "err_notfound" | .exists_ => "err_exists" | .panic => "PANIC"
+
+/-- the lock program of one call `kind.a.b.e` with its result rendered as text -/
+def callProg (directed : Bool) (c : String) : Option (Prog Nat Nat String) :=
+  let p := c.splitOn "."
+  let n := fun (i : Nat) => ((p.getD i "0").toNat?).getD 0
+  let m := fun (q : Prog Nat Nat (Res Nat)) => q.bind fun r => .done (resStr r)
+  match p.head? with
+  | some "c" => some (m (Sync.connect true (n 1) (n 2) (n 3)))
+  | some "t" => some (m (if directed then Sync.Di.tryConnect true (n 1) (n 2) (n 3) else Sync.Un.tryConnect true (n 1) (n 2) (n 3)))
+  | some "d" => some (m (if directed then Sync.Di.disconnect true (n 1) (n 2) else Sync.Un.disconnect true (n 1) (n 2)))
+  | some "x" => some (m (if directed then Sync.Di.isolate true (n 1) else Sync.Un.isolate true (n 1)))
+  | some "q" => some ((if directed then Sync.Di.isConnected (n 1) (n 2) else Sync.Un.isConnected (n 1) (n 2)).bind fun b => .done (b01 b))
+  | some "g" => some ((if directed then Sync.Di.outDegree (n 1) else Sync.Un.degree (n 1)).bind fun d => .done (toString d))
+  | some "o" => some ((if directed then Sync.Di.isOrphan (n 1) else Sync.Un.isOrphan (n 1)).bind fun b => .done (b01 b))
+  | some "i" => some ((iterAll (n 1) (if directed then (·.out) else fun a => a.out ++ a.inn) 64 0 []).bind fun l => .done (showList l))
+  | _ => none
+
+def atRequest {R : Type} (p : Prog Nat Nat R) : Bool := match p with | .acq _ _ _ => true | _ => false
+def isDone {R : Type} (p : Prog Nat Nat R) : Bool := match p with | .done _ => true | _ => false
+
+/-- run thread `t` until it is about to request a lock or is finished -/
+def runToRequest {R : Type} : Nat → Conf Nat Nat R → Nat → Conf Nat Nat R
+  | 0, c, _ => c
+  | fuel + 1, c, t =>
+    match c.threads[t]? with
+    | none => c
+    | some th =>
+      if atRequest th.prog || isDone th.prog then c else
+      match c.step t with
+      | none => c
+      | some c' => runToRequest fuel c' t
+
+/-- one scheduling decision: the chosen thread starts (up to its first request), or takes the lock it
+    waits for and runs on to its next request. `none` = the model cannot follow this decision. -/
+def decision {R : Type} (c : Conf Nat Nat R) (started : List Nat) (t : Nat) : Option (Conf Nat Nat R × List Nat) :=
+  if !(started.contains t) then some (runToRequest 4096 c t, t :: started) else
+  match c.threads[t]? with
+  | none => none
+  | some th =>
+    if isDone th.prog then none else
+    match c.step t with
+    | none => none
+    | some c' => some (runToRequest 4096 c' t, started)
+
+def followSched {R : Type} : List Nat → Conf Nat Nat R → List Nat → Option (Conf Nat Nat R)
+  | [], c, _ => some c
+  | t :: rest, c, started =>
+    match decision c started t with
+    | none => none
+    | some (c', st') => followSched rest c' st'
+
+def doConc (st : St) (toks : List String) : St × String :=
+  let args := toks.filter (fun t => !(t.startsWith "@"))
+  let sched : Option (List Nat) := match toks.find? (fun t => t.startsWith "@sched=") with
+    | none => none
+    | some t => let b := (t.drop 7).toString; if b == "" then some [] else (b.splitOn ",").mapM (·.toNat?)
+  match args, sched with
+  | ["conc", spec], some sched =>
+    let threads := (spec.splitOn "|").map fun t => ((t.splitOn "/").filter (· != "")).mapM (callProg st.directed)
+    match threads.mapM id with
+    | none => (st, "bad-op")
+    | some ths =>
+      let c0 : Conf Nat Nat (List String) := { store := st.s, threads := ths.map fun ps => { prog := seqProg ps } }
+      match followSched sched c0 [] with
+      | none => (st, "model-cannot-follow")
+      | some c =>
+        if c.threads.all (fun t => isDone t.prog) then
+          let res := ";".intercalate (c.threads.map fun t => match t.prog with | .done rs => ",".intercalate rs | _ => "?")
+          let st' := { st with s := c.store }
+          (st', s!"res={res} dump={dump st'}")
+        else (st, "model-unfinished")
+  | _, _ => (st, "bad-op")
+
 def stripVia (line : String) : String :=
   match line.splitOn " #" with
   | h :: _ => h
@@ -412,6 +497,7 @@ def step (st : St) (line : String) : St × String :=
   | ["cmp", k1, v1, k2, v2] => match k1.toNat?, v1.toInt?, k2.toNat?, v2.toInt? with
     | some k1, some v1, some k2, some v2 => (st, doCmp k1 v1 k2 v2)
     | _, _, _, _ => (st, "bad-op")
+  | "conc" :: rest => doConc st ("conc" :: rest)
   | t :: rest => if t.startsWith "g." then contReq st (t :: rest) else if t.startsWith "own." then ownReq st (t :: rest) else (st, "bad-op")
   | _ => (st, "bad-op")
 
